@@ -66,7 +66,7 @@ var objectMuts = []string{"Set", "Unset", "Clear"}
 
 func genHistory(t *rapid.T, allowEmpty bool) ListHistory {
 	h := ListHistory{Ctor: drawInt(t, 0, 3, "ctor")}
-	if allowEmpty && drawInt(t, 0, 3, "empty") == 0 {
+	if allowEmpty && oneIn(t, 4, "empty") {
 		return h
 	}
 	h.Init = genVals(t, 0, 5, 1)
@@ -92,7 +92,7 @@ func genPairs(t *rapid.T) []Pair0 {
 }
 
 func GenC09(t *rapid.T) *C09Case {
-	c := &C09Case{ObjectMode: drawInt(t, 0, 3, "mode") == 0}
+	c := &C09Case{ObjectMode: oneIn(t, 4, "mode")}
 	var names []string
 	if c.ObjectMode {
 		c.RecvPairs, c.ArgPairs = genPairs(t), genPairs(t)
@@ -108,7 +108,7 @@ func GenC09(t *rapid.T) *C09Case {
 	nm := drawInt(t, 1, 8, "nmut")
 	for i := 0; i < nm; i++ {
 		name := listMuts[drawIdx(t, len(listMuts), "lm")]
-		if drawInt(t, 0, 3, "om") == 0 {
+		if oneIn(t, 4, "om") {
 			name = objectMuts[drawIdx(t, len(objectMuts), "omn")]
 		}
 		c.Muts = append(c.Muts, Mut{Who: drawInt(t, 0, 63, "who"), Name: name, A: genRaw(t), V: genValSpec(t, 0), Key: []string{"a", "b", "zz", ""}[drawInt(t, 0, 3, "mk")]})
